@@ -133,11 +133,11 @@ def check(ctx, src):
     A = boolfn.Atoms(D="default is None", L="isinstance(decl, List)", K="is_kwonly")
     feas = lambda e: e["D"] or e["L"]  # a default only ever comes from a [sym default] declaration
     v, cex = boolfn.equivalent(pads, cas, A, lambda e: e["D"] and (e["L"] or e["K"]), feasible=feas)
-    ctx.decide("LL-WIRE", f"{R}|compile_arguments_set|padding", v if dv else None, f"None padding of defaults does not happen exactly for parameters without a default that are keyword-only or written as a list (differs for {cex})",
+    ctx.decide_tt("LL-WIRE", f"{R}|compile_arguments_set|padding", v if dv else None, f"None padding of defaults does not happen exactly for parameters without a default that are keyword-only or written as a list (differs for {cex})",
                R, cas.lineno, witness="(fn [a b] …) gets defaults=[None, None] -> ValueError: more positional defaults than args / a required keyword-only parameter loses its slot", detail="default is None and (List or kwonly)")
     v, cex = boolfn.equivalent(vals, cas, A, lambda e: not e["D"], feasible=feas)
     okv = all(norm(n.args[0]).endswith(".force_expr") for n in vals) and bool(vals)
-    ctx.decide("LL-WIRE", f"{R}|compile_arguments_set|default-value", (v and okv) if v is not None and dv else None, f"a parameter's default value is not compiled and appended exactly when it has one (differs for {cex})", R, cas.lineno, detail="append(<compiled default>.force_expr)")
+    ctx.decide_tt("LL-WIRE", f"{R}|compile_arguments_set|default-value", (v and okv) if v is not None and dv else None, f"a parameter's default value is not compiled and appended exactly when it has one (differs for {cex})", R, cas.lineno, detail="append(<compiled default>.force_expr)")
     # --- lambda vs def
     fl = rm.func("compile_function_lambda")
     ctx.require(fl is not None, "compile_function_lambda not found")
@@ -184,7 +184,7 @@ def check(ctx, src):
     ev = rsites[0].targets[0].id if same_var else None
     used = pyq.contains(fnn, lambda n: isinstance(n, ast.Call) and isinstance(n.func, ast.Name) and n.func.id == ev and any(k.arg == "value" and norm(k.value) == "body.expr" for k in n.keywords))
     verdict = None if (v1 is None or v2 is None or not same_var or used is None) else (v1 and v2)
-    ctx.decide("FN-SHAPE", f"{R}|compile_function_node|implicit-return", verdict, f"the implicit return rule changed (Return of the last expression unless async generator; differs for {c1 or c2})", R, fnn.lineno,
+    ctx.decide_tt("FN-SHAPE", f"{R}|compile_function_node|implicit-return", verdict, f"the implicit return rule changed (Return of the last expression unless async generator; differs for {c1 or c2})", R, fnn.lineno,
                witness="(defn f [] 1) returns None / an async generator gets `return value`: SyntaxError", detail="Expr if async generator else Return")
     y = rm.func("compile_yield_expression")
     ctx.require(y is not None, "compile_yield_expression not found")
